@@ -69,6 +69,13 @@ def handle(job):
         mism.append({"clause": "statistics_not_refreshed", "step": t, "stat": k})
       if exp["rc"] and not rc:
         mism.append({"clause": "roots_not_refreshed", "step": t, "stat": k})
+    # add_ggt: the moving Gram matrices stored next to the sketch are statistics too - same cadence
+    if cur["params"][name] is not None and cur["params"][name].get("ggt") and o.get("add_ggt"):
+      for k, (a, b) in enumerate(zip(prev["params"][name]["ggt"], cur["params"][name]["ggt"])):
+        if a is None or b is None:
+          mism.append({"clause": "add_ggt_state_missing", "step": t, "stat": k})
+        elif a != b and not exp["sc"]:
+          mism.append({"clause": "moving_ggt_changed_off_cadence", "step": t, "stat": k})
     # ekfac_svd: the SVD factors used for preconditioning are rewritten on every step (and only then)
     if cur["params"][name] is not None and "svd" in cur["params"][name]:
       for k, (a, b) in enumerate(zip(prev["params"][name]["svd"], cur["params"][name]["svd"])):
